@@ -402,6 +402,11 @@ _ENGINES = {}
 
 
 def _worker(args):
+    try:
+        import faulthandler, signal
+        faulthandler.register(signal.SIGUSR1, file=open(f"/tmp/mrun_stack_{os.getpid()}.txt", "w"), all_threads=False)
+    except Exception:
+        pass
     factory_mod, factory_name, entry_idx, inv, tier = args[:5]
     prefix = args[5] if len(args) > 5 else []
     import importlib
@@ -418,7 +423,7 @@ def _worker(args):
                 "wall": time.time() - t0, "cuts": [], "leftover": [], "idx": entry_idx}
 
 
-UNIT_PATHS = 5
+UNIT_PATHS = 3
 
 
 def explore_entry(eng, entry, inv, tier, t0, prefix=(), limit=None):
@@ -530,6 +535,45 @@ def resilient_map(f, xs, jobs, ctxm):
     return out
 
 
+def dynamic_explore(units, jobs, ctxm, mk_unit):
+    """work queue: every finished unit's unexplored alternatives are submitted at once (no batch barrier);
+    if a worker is killed, what is left is finished by resilient_map"""
+    if jobs == 1:
+        out, todo = [], list(units)
+        while todo:
+            r = _worker(todo.pop())
+            out.append(r)
+            todo += [mk_unit(r, p) for p in r.get("leftover", [])]
+        return out
+    import concurrent.futures as cf
+    results = []
+    todo = list(units)
+    try:
+        with cf.ProcessPoolExecutor(max_workers=jobs, mp_context=ctxm) as ex:
+            pending = {ex.submit(_worker, u): u for u in todo}
+            todo = []
+            while pending:
+                done, _ = cf.wait(list(pending), return_when=cf.FIRST_COMPLETED)
+                for fu in done:
+                    u = pending.pop(fu)
+                    try:
+                        r = fu.result()
+                    except cf.process.BrokenProcessPool:
+                        todo.append(u)
+                        raise
+                    results.append(r)
+                    for p in r.get("leftover", []):
+                        nu = mk_unit(r, p)
+                        pending[ex.submit(_worker, nu)] = nu
+    except cf.process.BrokenProcessPool:
+        todo += [u for u in pending.values() if u not in todo]
+    while todo:
+        part = resilient_map(_worker, todo, jobs, ctxm)
+        results += part
+        todo = [mk_unit(r, p) for r in part for p in r.get("leftover", [])]
+    return results
+
+
 def initial_clauses(eng, universe):
     """the clauses of the template that hold in the initial state"""
     reg = eng.make_reg()
@@ -602,11 +646,7 @@ def run_engine(factory_mod, factory_name, tier="quick", jobs=16, max_rounds=40, 
         inv_w = {c: ks for c, ks in inv.items()}
         inv_w["*"] = universe      # a cut point seen for the first time starts from the whole template
         units = [(factory_mod, factory_name, i, inv_w, tier, []) for i in range(len(eng.entries))]
-        results = []
-        while units:
-            part = resilient_map(_worker, units, jobs, ctxm)
-            results += part
-            units = [(factory_mod, factory_name, r["idx"], inv_w, tier, p) for r in part for p in r.get("leftover", [])]
+        results = dynamic_explore(units, jobs, ctxm, lambda r, p: (factory_mod, factory_name, r["idx"], inv_w, tier, p))
         crashed = [r for r in results if r.get("crash")]
         if crashed:
             return {"error": crashed[0]["crash"], "results": results, "inv": inv, "rounds": rounds}
